@@ -342,3 +342,32 @@ Definition ekind_code (k : ekind) : N := match k with EPublish => 0 | ESame => 1
    attributes): their events are not constrained; all others as in [footprint_ok] *)
 Definition footprint_ok_vol (vol : N -> bool) (evs : list wevent) : bool :=
   footprint_ok (filter (fun e => negb (vol (e_key e))) evs).
+
+(* ------------------------------------------------------------------------------------------ *)
+(* 8. iteration over the key SET of a shared container                                         *)
+(* ------------------------------------------------------------------------------------------ *)
+(* copy.deepcopy, pickling in Python, dict(d), list(d.items()), json encoding walk a dict with `for k, v in d.items()`:
+   CPython raises RuntimeError ("dictionary changed size during iteration") when the key set is not the one the iteration
+   started with.  Model: the container is the family of locations [ks]; the iterator looks at the presence of every key
+   when it starts and again when it goes on (any later step), and fails when the two looks differ. *)
+Section Iteration.
+Variable V R : Type.
+
+Definition present (o : option V) : bool := match o with Some _ => true | None => false end.
+
+Fixpoint bools_eqb (a b : list bool) : bool :=
+  match a, b with
+  | [], [] => true
+  | x :: a', y :: b' => Bool.eqb x y && bools_eqb a' b'
+  | _, _ => false
+  end.
+
+Definition iter_keys (ks : list N) (cont : bool -> prog V R) : prog V R :=
+  read_all ks [] (fun first => read_all ks [] (fun again =>
+    cont (bools_eqb (map present first) (map present again)))).
+
+(* the iterating operation: result [okv] when the walk goes through, [errv] = RuntimeError *)
+Definition iterate (ks : list N) (okv errv : R) : prog V R :=
+  iter_keys ks (fun same => Ret (if same then okv else errv)).
+End Iteration.
+Arguments present {V}. Arguments iter_keys {V R}. Arguments iterate {V R}.
